@@ -94,7 +94,7 @@ PROPS["C15"] = dict(
 PROPS["C03"] = dict(
     modules=["Sth.Props.C01", "Sth.Props.C08", "Sth.Props.C03", "Sth.Props.C03Close", "Sth.Props.C03Gc", "Sth.Props.C03GcHist", "Sth.Props.C03Open"],
     theorems=list(CORE_RL) + ['Sth.C03_flush_crash_recovers', 'Sth.C03_flush_crash_against_map', 'Sth.C03_removed_flushed_stays_absent', 'Sth.C03_flushed_unchanged_survives', 'Sth.C03_lastDurable_spec', 'Sth.C03_image_zero', 'Sth.C03_image_full', 'Sth.C03_recovered_store_keeps_working_partial', 'Sth.C03_close_crash_recovers', 'Sth.C03_close_crash_against_map', 'Sth.C03_close_recovered_store_keeps_working_partial', 'Sth.C03_close_images_recover', 'Sth.C03_snapshot_needs_complete_index', 'Sth.C03_igc_interrupted_crash_recovers', 'Sth.C03_pgc_interrupted_crash_recovers', 'Sth.C03_pgc_crash_vs_old_disk', 'Sth.C03_d11_pgc_dirty_index_pool_loses_durable_value', 'Sth.C03_crash_after_gc_history', 'Sth.C03_crash_after_gc_history_against_map', 'Sth.C03_crash_after_gc_history_keeps_working_partial', 'Sth.C03_crash_after_gc_history_cid', 'Sth.C03_flushed_unchanged_survives_gc', 'Sth.C03_removed_flushed_stays_absent_gc', 'Sth.C03_openSteps_last', 'Sth.C03_open_crash_recovers', 'Sth.C03_open_crash_recovers_restarted', 'Sth.C03_open_crash_recovers_durable', 'Sth.C03_open_crash_recovers_close', 'Sth.C03_open_crash_recovers_gc', 'Sth.C03_open_crash_old_or_new', 'Sth.C03_open_crash_first_open'],
-    runs=[dict(engine="crash", quick=48, thorough=2000, nontrivial=["torn", "at:index", "at:primary", "at:freelist", "at:store", "flush-image-interior"])],
+    runs=[dict(engine="crash", quick=48, thorough=2000, nontrivial=["torn", "at:index", "at:primary", "at:freelist", "at:store", "flush-image-interior", "open-image-interior"])],
     shrink_budget=0,   # the workload is the context of the crash oracle (baseline, acknowledged since): it is kept whole
     crash_lines=True,
     rule="sequential workloads on the multihash primary with small files; while every Flush, iteration, Close, reopen and GC cycle "
@@ -105,7 +105,8 @@ PROPS["C03"] = dict(
          "primary GC cycles+index GC, read again, close, reopen by rescan, read again. The same image bytes are loaded into the Lean model "
          "and its recovery is compared with the real one; every image captured while an explicit Flush ran must equal the crash image "
          "Sth/Model/CrashImage.lean predicts for that number of file events (creation or appended byte; early creation of the file "
-         "rolled over to included), which ties the model the crash theorem quantifies over to the code. Non-trivial = distinct workload with torn images / images at index, primary, "
+         "rolled over to included), and every image captured while a plain OpenStore ran must be the directory after one of the steps "
+         "Sth/Model/CrashImageOpen.lean lists - which ties the models the crash theorems quantify over to the code. Non-trivial = distinct workload with torn images / images at index, primary, "
          "freelist or store points.",
     assumptions=["process crash: what reached the files stays, in order; power-loss reordering is out of the property's scope",
                  "rename, unlink, truncate and a pwrite of 4 bytes are atomic with respect to a process crash"],
